@@ -689,6 +689,33 @@ def multi_run(ck: Check, ode_mod, np) -> None:
                         f"{'test' if k < len(test) else 'training'} budget", case)
 
 
+# --------------------------------------------------------------------------- starting states that are not float64
+def start_dtypes(ck: Check, ode_mod, np) -> None:
+    """A starting state is "a vector": the same numbers handed over as int64 / int32 / float32 arrays must give the
+    simulation of the float64 vector (float64 result, same rows) - every clause of the property is judged on the float64
+    run by the other streams, this one ties the other element types to it (found missing by seeded change
+    C10-result-inherits-start-dtype)."""
+    seen = set()
+    for (label, start, eqs, ctl, params, cdim, steps, mt, _spec, _extra) in real_programs(ck):
+        kind = label.split(":")[1]
+        if kind in seen or kind not in ("stable", "analytic", "timedep", "exp", "blowup") or any(v != int(v) for v in start) \
+                or max(abs(v) for v in start) > 1e6:
+            continue
+        seen.add(kind)
+        with np.errstate(all="ignore"):
+            ref = ode_mod.run_ode(np.array(start, dtype=np.float64), eqs, ctl, params, cdim, steps, mt)
+            for dt in (np.int64, np.int32, np.float32):
+                got = ode_mod.run_ode(np.array(start, dtype=dt), eqs, ctl, params, cdim, steps, mt)
+                case = {"program": label, "start": start, "start_dtype": np.dtype(dt).name, "steps": steps, "max_time": mt}
+                ck.count("start_dtype:" + np.dtype(dt).name)
+                ck.case(f"start_dtype {json.dumps(case, sort_keys=True)}")
+                ck.spec(got.dtype == np.float64 and got.shape == ref.shape and bool(np.array_equal(got, ref, equal_nan=True)),
+                        "start_dtype", f"run_ode on the {np.dtype(dt).name} starting state {start} returns a {got.dtype} array of "
+                        f"shape {got.shape} that differs from the simulation of the same float64 vector "
+                        f"(first differing row: {next((i for i in range(min(len(got), len(ref))) if not np.array_equal(got[i], ref[i], equal_nan=True)), None)})",
+                        case)
+
+
 # --------------------------------------------------------------------------- figure of merit
 def j_cases(ck: Check):
     """(stream, matrix of Fractions, sd, use, gamma Fraction)"""
@@ -922,6 +949,7 @@ def streams(ck: Check) -> None:
     run_j(ck, ode_mod, np, ops, expect, real_jobs)
     numeric_tests(ck, ode_mod, np, real_jobs)
     multi_run(ck, ode_mod, np)
+    start_dtypes(ck, ode_mod, np)
     system_validation(ck, np, ops, expect)
 
     outs = ck.model(ops)
